@@ -36,6 +36,8 @@ TEMPLATES = {
     "kwargs_present": ["Dgate({a}, 0.5) | 0", "MeasureHomodyne(phi=0.25) | 0", "Sgate(8*{a}-2) | 1"],
     "five_ops": ["Ag({a}) | 0", "Bg({b}) | 1", "Cg({a}+0.5, {b}-0.5) | [0, 1]", "Dg(4*{b}) | 2", "Eg(-{a}/8) | [2, 0]"],
     "scale_only": ["Dgate(2*{a}, 0.5) | 0", "Sgate(-{b}/4) | 1", "Rgate(3*{a}, {b}) | 2", "Zgate({a}*0.125) | 3"],
+    # parameter names that SymPy-based code likes to use for its own placeholders (`x`, `y`, `z`)
+    "sympy_like_names": ["Dgate(2*{y}-1) | 0", "Sgate(-{y}, {x}) | 1", "Rgate({x}+1.5, {z}) | 2", "Zgate(4*{z}) | 0"],
     "offset_only_and_scale_only": ["Dgate({p}+1.5) | 0", "Dgate(4*{q}) | 1", "Dgate({p}-0.25, {q}/2) | 2"],
 }
 # templates whose arguments have no additive constant: a parameter value of any magnitude is recovered without cancellation
